@@ -5,6 +5,9 @@ A dataset *spec* is plain JSON-able data (so that it can go into replays and to 
   ["struct", name, attrs, [children]]
   ["grid", name, attrs, dtype, [[dimname, n], ...]]
   ["seq", name, attrs, [[colname, dtype, axis|None], ...], nrows]
+  ["lseq", name, attrs, [[colname, dtype, axis|None], ...], nrows, ranged]
+        a LAZY sequence: data = pydap.handlers.lib.IterData(rows, seq); with `ranged` the served data object already
+        carries a record range: IterData([rows[0]] + rows, seq)[1:]
 """
 import re
 import zlib
@@ -61,7 +64,22 @@ def build_var(spec):
             arr[cname] = _vals(cname, dtype, nrows)
         out.data = arr
         return out
+    if kind == "lseq":
+        from pydap.handlers.lib import IterData
+
+        _, name, attrs, cols, nrows, ranged = spec
+        out = SequenceType(name, attributes=_attrs(attrs))
+        for cname, dtype, axis in cols:
+            out[cname] = BaseType(cname, attributes=({"axis": axis} if axis else {}))
+        columns = [_vals(cname, dtype, nrows).tolist() for cname, dtype, _ in cols]
+        rows = [tuple(c[i] for c in columns) for i in range(nrows)]
+        out.data = IterData([rows[0]] + rows, out)[1:] if (ranged and rows) else IterData(rows, out)
+        return out
     raise ValueError(kind)
+
+
+def is_seq(v):
+    return v[0] in ("seq", "lseq")
 
 
 def _attrs(a):
@@ -133,6 +151,26 @@ FIXED_REQUESTS = [
 ]
 
 
+# lazy sequences (IterData): a plain one and one whose served data object already carries a record range
+LAZY_SPEC = {
+    "name": "d", "attrs": {"title": "lazy"},
+    "vars": [
+        ["base", "a", "i4", [6], {"units": "m"}],
+        ["lseq", "s", {"note": "lazy"}, [["i", "i4", "x"], ["f", "f8", "y"], ["w", "S", None]], 9, False],
+        ["lseq", "r", {"note": "ranged"}, [["j", "i4", "x"], ["g", "f8", None]], 7, True],
+    ],
+}
+
+LAZY_REQUESTS = [
+    "/d.dds", "/d.das", "/d.dods", "/d.ascii", "/d.asc", "/d.ver", "/d.dmr", "/d.html",
+    "/d.dods?s", "/d.dods?r", "/d.ascii?s", "/d.ascii?r", "/d.dods?s[1:1:8]", "/d.dods?r[1:1:8]", "/d.ascii?s[1:1:8]",
+    "/d.ascii?r[0:2:5]", "/d.dods?s[2:3]", "/d.dods?r[3]", "/d.dods?s.i", "/d.dods?s.i,s.w", "/d.ascii?r.g", "/d.dods?r.j[1:2]",
+    "/d.ascii?s.w[1:1:8]", "/d.dods?s&s.i>1", "/d.ascii?s.w&s.i>=2&s.f<9", "/d.dods?r&r.j<7", "/d.ascii?r.g&r.j!=3",
+    "/d.dds?s[1:1:8]", "/d.das?s", "/d.dods?i", "/d.dods?s&bounds(0,9,0,9,0,9,00Z01JAN1970,00Z01JAN1970)",
+    "/d.dods?a[1:2:5]", "/d.dods?s[x]", "/d.dods?s&s.zz>1", "/d.dods?r.nope", "/d.dods?mean(s,0)",
+]
+
+
 def rand_spec(rng):
     """a random dataset: 2..6 top-level variables, nesting to depth 2, globally unique names"""
     names = iter(["v%d" % i for i in range(100)])
@@ -162,6 +200,8 @@ def rand_spec(rng):
             return ["grid", n, attrs(), rng.choice(ints), [[n + "x", rng.randint(1, 3)], [n + "y", rng.randint(1, 4)]][:rng.randint(1, 2)]]
         cols = [[next(names), rng.choice(["i4", "f8", "i2", "S"]), ax] for ax in
                 rng.sample(["x", "y", "z", None, None], rng.randint(1, 4))]
+        if rng.random() < 0.25:
+            return ["lseq", next(names), attrs(), cols, rng.randint(1, 6), rng.random() < 0.5]
         return ["seq", next(names), attrs(), cols, rng.randint(0, 6)]
 
     return {"name": "d", "attrs": attrs(), "vars": [var(0) for _ in range(rng.randint(2, 6))]}
@@ -207,14 +247,14 @@ def rand_request(rng, spec, kind=None):
         if rng.random() < 0.25:
             return rng.choice(["/d", "/d.foo", "/d.", "/.dods", "/d.dods.x"]), kind
         return "/d.%s?%s" % (resp, rng.choice(MALFORMED_CE)), kind
-    seqs = [(p, v) for p, v in lv if v[0] == "seq"]
+    seqs = [(p, v) for p, v in lv if is_seq(v)]
     if kind == "sel" and not seqs:
         kind = "proj"
     if kind in ("proj", "slab"):
         parts = []
         for p, v in rng.sample(lv, rng.randint(1, min(3, len(lv)))):
             name = ".".join(p) if rng.random() < 0.8 else p[-1]          # full id or shorthand
-            if v[0] == "seq" and rng.random() < 0.6:
+            if is_seq(v) and rng.random() < 0.6:
                 col = rng.choice(v[3])[0]
                 name = ".".join(p + (col,))
                 if kind == "slab" and v[4] > 0 and rng.random() < 0.5:
@@ -226,7 +266,7 @@ def rand_request(rng, spec, kind=None):
                     name += hyperslab(rng, v[3])
                 elif v[0] == "grid":
                     name += hyperslab(rng, [n for _, n in v[4]])
-                elif v[0] == "seq" and v[4] > 0:
+                elif is_seq(v) and v[4] > 0:
                     name += hyperslab(rng, [v[4]])
             parts.append(name)
         return "/d.%s?%s" % (resp, ",".join(parts)), kind
@@ -300,10 +340,20 @@ def snapshot(ds):
     """deep, order-sensitive snapshot of a served dataset: structure, hidden children, ids, attributes, data"""
     from pydap.model import BaseType, SequenceType, StructureType
 
+    from props import c13_modstate as M
+
     def data(d):
         if isinstance(d, np.ndarray):
             return ("nd", str(d.dtype), d.shape, d.tobytes())
-        return ("obj", type(d).__name__, repr(d))
+        # any other data object (IterData: stream, template, ifilter/imap/islice lists, level): its whole state,
+        # address-free, and for a lazy stream the records it yields now
+        rows = None
+        if hasattr(d, "islice") and hasattr(d, "stream"):
+            try:
+                rows = repr(list(iter(d)))
+            except Exception as e:
+                rows = "raises %s" % type(e).__name__
+        return ("obj", type(d).__name__, repr(M.fp(d)), rows)
 
     def attrs(a):
         return repr(a)
